@@ -1,4 +1,6 @@
 """C01 — batches apply atomically and exactly as the abstract index says."""
+import re
+
 GEN = False
 STATELESS = False      # histories: 'case' blocks, shrunk by dropping batches
 # model branches (reported by the Lean driver on the replay of the REAL introductions) that a run must reach
@@ -47,8 +49,13 @@ def signature(rec):
     if "-v2-" in op:
         if v.startswith("bad:writer-process-crashed") and "ice-v2-stored-chunk-buffer" in impl:
             return "ice-v2-stored-fields-race-with-merge"
+        corrupt = re.search(r"[.=;]1[0-9]{9}\b", impl) is not None      # a document whose stored fields do not belong together
         if v.startswith("bad:reader-differs") and " transient" in op and (
-                impl.startswith("err:stored") or impl.startswith("panic") or ".-" in impl):
+                impl.startswith("err:stored") or impl.startswith("panic") or corrupt):
+            return "ice-v2-stored-fields-race-with-merge"
+        # the same race inside the merge copies wrong stored bytes into the merged segment (then it is not transient)
+        if corrupt and v.split(" ", 1)[0] in ("bad:merge-changed-content", "bad:reader-differs-from-abstract-index",
+                                               "bad:root-differs-from-abstract-index", "bad:persist-changed-content"):
             return "ice-v2-stored-fields-race-with-merge"
     # anything else: one report per class of verdict / kind of step (keeps the shrinker from minimising five
     # copies of one root cause); none of these classes is ever a known finding
